@@ -384,7 +384,8 @@ struct Wrapper {
 }
 
 fn dur(i: usize) -> Option<Duration> {
-    const SECS: [u64; 4] = [0, 1, u32::MAX as u64, u64::MAX];
+    // ... and values a detour through f64 does not preserve (2^53 + 1, i64::MAX)
+    const SECS: [u64; 6] = [0, 1, u32::MAX as u64, u64::MAX, (1u64 << 53) + 1, i64::MAX as u64];
     const NANOS: [u32; 3] = [0, 1, 999_999_999];
     if i == 0 {
         None
@@ -405,9 +406,9 @@ fn same(a: &PoolConfig, b: &PoolConfig) -> bool {
 pub fn sweep_serde() -> Outcome {
     let mut viol = Vec::new();
     let max_size = [0usize, 1, 16, usize::MAX][choose_free(4)];
-    let wait = dur(choose_free(13));
-    let create = dur(choose_free(13));
-    let recycle = dur(choose_free(13));
+    let wait = dur(choose_free(19));
+    let create = dur(choose_free(19));
+    let recycle = dur(choose_free(19));
     let queue_mode = [QueueMode::Fifo, QueueMode::Lifo][choose_free(2)];
     explorer::count_step();
     let pc = PoolConfig { max_size, timeouts: Timeouts { wait, create, recycle }, queue_mode };
